@@ -464,7 +464,8 @@ def sym_attr(interp, o, name, fr, node):
         if o.kind == "timedelta":
             if name == "total_seconds":
                 def total_seconds():
-                    raise Undecided("timedelta.total_seconds() returns a float (outside the subset)")
+                    from . import fpmodel
+                    return fpmodel.total_seconds(interp, o.t)
                 return SymMethod(total_seconds)
             if name == "days":
                 return lower(o.t / (86400 * 10 ** 6))
@@ -800,6 +801,11 @@ def m_range(interp, fr, *args):
 def m_int(interp, fr, v=0, *rest):
     if isinstance(v, (SInt, SBool)):
         return lower(zint(v))
+    from . import fpmodel
+    if type(v).__name__ == "SInstantSeconds" and not rest:
+        v = fpmodel.total_seconds(interp, v.us)
+    if isinstance(v, fpmodel.SFloat) and not rest:
+        return fpmodel.py_int(interp, v)
     if isinstance(v, Sym):
         raise Undecided("int() of symbolic non-int")
     return int(v, *rest)
@@ -835,6 +841,11 @@ def m_max(interp, fr, *args, **kw):
 def m_round(interp, fr, v, nd=None):
     if isinstance(v, (SInt, SBool)) and nd is None:
         return lower(zint(v))
+    from . import fpmodel
+    if type(v).__name__ == "SInstantSeconds":
+        v = fpmodel.total_seconds(interp, v.us)
+    if isinstance(v, fpmodel.SFloat) and nd is None:
+        return fpmodel.py_round(interp, v)
     if isinstance(v, Sym):
         raise Undecided("round() of a float (outside the subset)")
     return round(v) if nd is None else round(v, nd)
